@@ -6,8 +6,9 @@ request the application would have answered normally (finding F15 family; the 40
 the application's middlewares).
 
 Decided, by following calls from every middleware function (first parameter ``next``) into the functions / methods of the analysed
-tree and of the pinned third-party sources (receiver classes are known from ``self`` / ``cls``, ``super()``, and class-level
-attributes naming a class -- never from names): every *parse site* that is fed request-derived data
+tree, and into the pinned third-party sources where class dispatch leads there (a method of a library base class of a class of the
+tree; receiver classes are known from ``self`` / ``cls``, ``super()``, and class-level attributes naming a class -- never from
+names; plain library functions are not entered): every *parse site* that is fed request-derived data
 
     base64.b64decode(x) / a2b_base64 (binascii.Error),  x.decode(<strict codec>) (UnicodeDecodeError),  <m>.loads(x) (ValueError),
     int(x) / float(x) (ValueError, TypeError),  and a *configured callable* -- a callable held in a loop variable / parameter /
@@ -117,9 +118,11 @@ class _Walker(object):
                 kind, m, obj = repo.resolve(fi.mod, f.id)
             except Exception:
                 return None
-            if kind == 'func' and obj is not None:
+            # (plain functions / constructors of a library are not entered: what they raise on bad input is the table's business;
+            #  library code is entered only through class dispatch -- a base class of a class of the tree)
+            if kind == 'func' and obj is not None and not obj.mod.external:
                 return obj, None, 0
-            if kind == 'class' and isinstance(obj, ClassInfo):
+            if kind == 'class' and isinstance(obj, ClassInfo) and not obj.mod.external:
                 init = repo.find_method(obj, '__init__')
                 return (init, obj, 1) if init is not None else None
             return None
@@ -157,7 +160,7 @@ class _Walker(object):
                         k2, m2, o2 = repo.resolve(m, f.attr)
                     except Exception:
                         k2 = None
-                    if k2 == 'func' and o2 is not None:
+                    if k2 == 'func' and o2 is not None and not o2.mod.external:
                         return o2, None, 0
         if not isinstance(cls, ClassInfo):
             return None
